@@ -20,12 +20,14 @@ import (
 	"reflect"
 	"regexp"
 	"runtime"
+	"runtime/debug"
 	"strings"
 
 	"verif/kit"
 	"verif/model"
 
 	"github.com/youchainhq/go-youchain/common"
+	"github.com/youchainhq/go-youchain/consensus/ucon"
 	"github.com/youchainhq/go-youchain/params"
 	"github.com/youchainhq/go-youchain/rlp"
 )
@@ -44,8 +46,30 @@ func hx(b []byte) string {
 	return hex.EncodeToString(b)
 }
 
+// lastStack holds the stack of the most recent panic recovered by guard (for the witness).
+var lastStack string
+
+// guard is kit.Guard plus the stack trace of the panic.
+func guard(f func()) (p interface{}) {
+	defer func() {
+		if r := recover(); r != nil {
+			p = r
+			st := string(debug.Stack())
+			if i := strings.Index(st, "panic("); i >= 0 {
+				st = st[i:]
+			}
+			if len(st) > 3000 {
+				st = st[:3000]
+			}
+			lastStack = st
+		}
+	}()
+	f()
+	return nil
+}
+
 func encGuard(v interface{}) (b []byte, err error, p interface{}) {
-	p = kit.Guard(func() { b, err = rlp.EncodeToBytes(v) })
+	p = guard(func() { b, err = rlp.EncodeToBytes(v) })
 	return
 }
 
@@ -55,7 +79,7 @@ var idxRe = regexp.MustCompile(`\[[^\]]*\]`)
 func decodeMeasured(e *entry, in []byte, t interface{}) (err error, p interface{}, alloc uint64) {
 	var m0, m1 runtime.MemStats
 	runtime.ReadMemStats(&m0)
-	p = kit.Guard(func() { err = e.decode(in, t) })
+	p = guard(func() { err = e.decode(in, t) })
 	runtime.ReadMemStats(&m1)
 	return err, p, m1.TotalAlloc - m0.TotalAlloc
 }
@@ -70,7 +94,7 @@ var hashed = map[string]bool{"Header": true, "Transaction": true, "Block": true,
 
 func runRT(c *kit.Ctx) {
 	params.InitNetworkId(99)
-	chunks := c.N(64, 6400)
+	chunks := c.N(96, 6400)
 	reps := 24
 	for i := 0; i < chunks; i++ {
 		id := fmt.Sprintf("rt%d", i)
@@ -125,7 +149,7 @@ func rtOne(c *kit.Ctx, g *gen, e *entry) bool {
 		c.Violation("roundtrip-decode-error:"+e.name, fmt.Sprintf("the node's own encoding of a %s is rejected by its decoder: %v", e.name, derr), map[string]interface{}{"type": e.name, "enc": hx(b1), "value": fmt.Sprintf("%+v", v)})
 		return false
 	}
-	c.Max("max_alloc_per_input_byte_x100", int64(alloc*100/uint64(len(b1)+1)))
+	c.Max("max_alloc_vs_bound_permille", int64(alloc*1000/(1024*uint64(len(b1))+allocSlack)))
 	if alloc > 1024*uint64(len(b1))+allocSlack {
 		c.Violation("decode-alloc:"+e.name, fmt.Sprintf("decoding %d valid bytes as %s allocated %d bytes (> 1024*len+1MiB)", len(b1), e.name, alloc), map[string]interface{}{"type": e.name, "input": hx(b1)})
 		return false
@@ -152,7 +176,7 @@ func rtOne(c *kit.Ctx, g *gen, e *entry) bool {
 	if hv, ok := v.(hasher); ok && hashed[e.name] {
 		hw := w.(hasher)
 		var h1, h2 common.Hash
-		if p := kit.Guard(func() { h1, h2 = hv.Hash(), hw.Hash() }); p != nil {
+		if p := guard(func() { h1, h2 = hv.Hash(), hw.Hash() }); p != nil {
 			c.Violation("hash-panic:"+e.name, fmt.Sprintf("Hash() of a %s panics: %v", e.name, p), map[string]interface{}{"type": e.name, "enc": hx(b1)})
 			return false
 		}
@@ -167,7 +191,7 @@ func rtOne(c *kit.Ctx, g *gen, e *entry) bool {
 		}
 	}
 	if e.touch != nil {
-		if p := kit.Guard(func() { e.touch(w) }); p != nil {
+		if p := guard(func() { e.touch(w) }); p != nil {
 			c.Violation("post-decode-panic:"+e.name, fmt.Sprintf("accessors of a decoded valid %s panic: %v", e.name, p), map[string]interface{}{"type": e.name, "input": hx(b1)})
 			return false
 		}
@@ -187,7 +211,7 @@ func describeDiff(e *entry, in, re []byte) string {
 		if ua != len(in) {
 			return e.name + ":(whole):trailing-bytes"
 		}
-		return e.name + ":(whole):header-encoding"
+		return e.name + ":(whole):length-prefix-form"
 	}
 	return pathName(e.name, e.shape, path) + ":" + kind
 }
@@ -195,7 +219,11 @@ func describeDiff(e *entry, in, re []byte) string {
 var errBucketRe = regexp.MustCompile(` for .*|, decoding into.*|: .*|[0-9]+`)
 
 func errBucket(err error) string {
-	s := errBucketRe.ReplaceAllString(err.Error(), "")
+	s := err.Error()
+	if strings.HasPrefix(s, "ucon: ") {
+		s = s[6:]
+	}
+	s = errBucketRe.ReplaceAllString(s, "")
 	if len(s) > 48 {
 		s = s[:48]
 	}
@@ -206,7 +234,10 @@ func errBucket(err error) string {
 
 func runHostile(c *kit.Ctx) {
 	params.InitNetworkId(99)
-	chunks := c.N(64, 9600)
+	chunks := c.N(128, 9600)
+	if c.Mode == "race" {
+		chunks = c.N(8, 320) // the -race/checkptr build is ~10x slower: same generators, fewer chunks
+	}
 	for i := 0; i < chunks; i++ {
 		id := fmt.Sprintf("h%d", i)
 		if !c.Mine(i, id) {
@@ -260,16 +291,24 @@ func hostileOne(c *kit.Ctx, e *entry, kind string, valid, in []byte) bool {
 	t := e.target()
 	err, p, alloc := decodeMeasured(e, in, t)
 	if p != nil {
-		c.Violation("decode-panic:"+e.name, fmt.Sprintf("decoding %d hostile bytes (%s) as %s panics: %v", len(in), kind, e.name, p), wit(nil))
+		c.Violation("decode-panic:"+e.name, fmt.Sprintf("decoding %d hostile bytes (%s) as %s panics: %v", len(in), kind, e.name, p), wit(map[string]interface{}{"stack": lastStack}))
 		return false
 	}
-	c.Max("max_alloc_per_input_byte_x100", int64(alloc*100/uint64(len(in)+1)))
+	c.Max("max_alloc_vs_bound_permille", int64(alloc*1000/(1024*uint64(len(in))+allocSlack)))
 	c.Max("max_alloc_bytes", int64(alloc))
 	if alloc > 1024*uint64(len(in))+allocSlack {
 		c.Violation("decode-alloc:"+e.name, fmt.Sprintf("decoding %d hostile bytes (%s) as %s allocated %d bytes (> 1024*len+1MiB)", len(in), kind, e.name, alloc), wit(map[string]interface{}{"allocated": alloc}))
 		return false
 	}
 	rawFunctions(c, in, wit)
+	if rlpLevelInvalid[kind] && !(e.p2p && kind == "trailing") {
+		// by construction not one canonical RLP item, whatever the target type
+		if err != nil {
+			c.Count("rlp_level_invalid_rejected", 1)
+		} else {
+			c.Count("rlp_level_invalid_accepted", 1)
+		}
+	}
 	if err != nil {
 		if kind == "valid" {
 			c.Violation("roundtrip-decode-error:"+e.name, fmt.Sprintf("the node's own encoding of a %s is rejected by its decoder: %v", e.name, err), wit(nil))
@@ -277,14 +316,26 @@ func hostileOne(c *kit.Ctx, e *entry, kind string, valid, in []byte) bool {
 		}
 		c.Count("rejected", 1)
 		c.Sig(e.name + "|" + kind + "|rej|" + errBucket(err))
+		if kind == "claim-huge" {
+			c.Sample(map[string]interface{}{"type": e.name, "mutation": kind, "input": hx(in[:min(len(in), 48)]), "input_len": len(in), "outcome": "rejected: " + err.Error(), "allocated_bytes": alloc})
+		}
 		return true
 	}
 	c.Count("accepted", 1)
 	c.Count("mut_"+kind+"_accepted", 1)
 	w := e.val(t)
+	if bv, ok := w.(*ucon.BlockHashWithVotes); ok {
+		// DESIGN suspicion: processVoteMsg dereferences msg.Vote before its nil check for non-current
+		// rounds; only reachable if some accepted payload leaves Vote nil. Observed here.
+		if bv.Vote == nil || bv.Round == nil {
+			c.Count("vote_container_accepted_with_nil_vote_or_round", 1)
+		} else {
+			c.Count("vote_container_accepted_vote_nonnil", 1)
+		}
+	}
 	if e.touch != nil {
-		if p := kit.Guard(func() { e.touch(w) }); p != nil {
-			c.Violation("post-decode-panic:"+e.name, fmt.Sprintf("accessors of an accepted hostile %s (%s) panic: %v", e.name, kind, p), wit(nil))
+		if p := guard(func() { e.touch(w) }); p != nil {
+			c.Violation("post-decode-panic:"+e.name, fmt.Sprintf("accessors of an accepted hostile %s (%s) panic: %v", e.name, kind, p), wit(map[string]interface{}{"stack": lastStack}))
 			return false
 		}
 	}
@@ -327,7 +378,7 @@ func rawFunctions(c *kit.Ctx, in []byte, wit func(map[string]interface{}) map[st
 		n             int
 		cerr          error
 	)
-	p := kit.Guard(func() {
+	p := guard(func() {
 		_, content, rest, err = rlp.Split(in)
 		rlp.SplitList(in)
 		rlp.SplitString(in)
